@@ -10,9 +10,9 @@ import (
 
 func init() {
 	register(&PropSpec{
-		ID: "C03",
+		ID:          "C03",
 		Explanation: "Structural necessary conditions for correct downstream resolution and ordering. R1: in the resolver every lookup in the upstream-info and data-id alias tables is a comma-ok lookup whose not-found edge returns a non-nil error and no chunk. R2: the alias tables are written only by the assign functions and the constructor, each new alias is the value just returned by the stream's own alias generator, and the generator stored in the stream is the one that numbered the pre-registered data ids. R3: exactly one site sends on the stream's data-points channel and one on its metadata channel, each in a function run by exactly one member of the run group; every wire-level subscription returns a channel created by that call. R4: the returned chunk's sequence number, points and upstream info derive from the wire chunk's own fields and the table entries. R5: the metadata ack echoes the returned metadata's request id and is sent before the value is returned.",
-		NotDecided: []string{"exactly-once / in-order delivery as such", "correctness of the table contents over histories", "the 1024-item buffering behaviour"},
+		NotDecided:  []string{"exactly-once / in-order delivery as such", "correctness of the table contents over histories", "the 1024-item buffering behaviour"},
 		Rules: func(r *Run) {
 			ruleC03R1(r)
 			ruleC03R2(r)
